@@ -2,7 +2,7 @@
 import kernpy as kp
 
 from .. import pitch as M
-from ..common import Bad, Result
+from ..common import Bad, Result, Problem
 
 ID = 'C09'
 LEVEL = 'exploration'
@@ -12,7 +12,8 @@ RULE = ('Exhaustive enumeration of 7 letters x 5 alterations (-2..+2) x octaves 
         'unison, octave and fourth+fifth laws on the same grid and the interval-name table.  A case is (pitch, '
         'interval, direction); it is non-trivial when the model result is spellable with <=2 accidentals and differs '
         'from the source spelling.  Both tiers enumerate the whole grid, once with fresh pitches and twice on a single '
-        'AgnosticPitch object whose name/octave attributes are re-assigned between calls; thorough adds the AgnosticPitch-level API '
+        'AgnosticPitch object whose name/octave attributes are re-assigned between calls, and once more with the argument and / or the '
+        'result written in the American notation (input_format / output_format of kernpy.transpose: "Bb3", "C##0"); thorough adds the AgnosticPitch-level API '
         '(transpose_agnostics) on the same grid.')
 ASSUMPTIONS = ['kv/pitch.py (letter/semitone arithmetic, interval names from quality+number) is the reference',
                'results needing more than two accidentals are unconstrained (may raise or return anything), as the property says']
@@ -108,6 +109,48 @@ def check_american(case):
                   sample={'agnostic': [p.name, p.octave], 'interval': name, 'direction': direction, 'result': [q.name, q.octave]})
 
 
+def _american(l, alt, o):
+    return M.LETTERS[l] + ('#' * alt if alt > 0 else 'b' * -alt) + str(o)
+
+
+def check_notation(case):
+    """the same arithmetic when the argument and / or the result are written in the American notation
+    (kernpy.transpose(..., input_format='american', output_format='american'): 'Bb3', 'C##0', 'A0')"""
+    l, alt, o, name, direction = case['l'], case['alt'], case['o'], case['name'], case['dir']
+    l1, a1, o1 = M.transpose(l, alt, o, name, direction)
+    if not -2 <= a1 <= 2:
+        return Result(classes=['notation-unspellable'])
+    iv = kp.IntervalsByName[name]
+    want = {'kern': M.spell(l1, a1, o1), 'american': _american(l1, a1, o1)}
+    src = {'kern': M.spell(l, alt, o), 'american': _american(l, alt, o)}
+    problems = []
+    for fin, fout in (('american', 'kern'), ('kern', 'american'), ('american', 'american')):
+        call = f'transpose({src[fin]!r},{name},{direction}, input_format={fin}, output_format={fout})'
+        try:
+            got = kp.transpose(src[fin], iv, input_format=fin, output_format=fout, direction=direction)
+        except Exception as e:  # noqa
+            problems.append(Problem('notation-raised', f'{call} raised {e!r}', {'fin': fin, 'fout': fout, 'alt': alt, 'a1': a1}))
+            continue
+        if got != want[fout]:
+            problems.append(Problem('notation-wrong-result', f'{call} = {got!r}, model says {want[fout]!r}',
+                                    {'fin': fin, 'fout': fout, 'alt': alt, 'a1': a1, 'got': got, 'want': want[fout]}))
+    r = Result(nontrivial=(l1, a1, o1) != (l, alt, o), classes=['american-notation'], evals=3, key=['am', case],
+               sample={'pitch': src['american'], 'interval': name, 'direction': direction, 'result': want['american']})
+    r.problems = problems
+    return r
+
+
+def f_amsharp(case, p):
+    """KF-C09-AMSHARP: a result with TWO sharps written in the American notation comes out with two flats
+    ('F##4' -> 'Fbb4'); letter and octave are right, and nothing else is wrong.  (test_transposer pins 'Fbb4'.)"""
+    d = p.data
+    return (p.sig == 'notation-wrong-result' and d.get('fout') == 'american' and d.get('a1') == 2
+            and d.get('got') == d.get('want', '').replace('##', 'bb'))
+
+
+FINDINGS = {'KF-C09-AMSHARP': f_amsharp}
+
+
 def check_reused(case):
     """the whole grid again on ONE AgnosticPitch object whose public name / octave attributes are re-assigned between
     calls (a value cached inside the object must not survive the assignment)"""
@@ -155,6 +198,7 @@ def run(ctx):
     ctx.check_all([{'table': True}], check_table)
     ctx.check_all(grid(), check)
     ctx.check_all([{'order': 'name-outer'}, {'order': 'octave-then-name'}], check_reused)
+    ctx.check_all(({**g, 'notation': True} for g in grid()), check_notation)
     if not ctx.quick:
         ctx.check_all(grid(), check_american)
     ctx.rec.exhaustive = True
@@ -166,6 +210,8 @@ def replay(case):
         return check_table(case)
     if 'order' in case:
         return check_reused(case)
+    if case.get('notation'):
+        return check_notation(case)
     r = check(case)
     check_american(case)
     return r
